@@ -274,12 +274,28 @@ type c05Env struct {
 	// nothing but bank movements has happened since the last Commit (the only place the code calls SyncBalances:
 	// inside a precompile's Run, which commits on entry)
 	justFlushed bool
+	// store-trace monitor (C05): where each snapshot was taken and which accounts the keeper had then; the Commits seen
+	// so far with the objects that were self-destructed at that moment; the reverted spans; per-account classes
+	snapAt     map[int]int
+	existedAt  map[int][c05N]bool
+	flushes    []c05Flush
+	spans      [][2]int
+	spanFlush  bool
+	created    [c05N]bool
+	deleted    [c05N]bool
+	cleanAfter [c05N]bool
+}
+
+type c05Flush struct {
+	at       int
+	suicided [c05N]bool
 }
 
 func c05Exec(c Case, prop string) (outs []string, fails []Failure, tags []string) {
 	nw, _ := fixture()
 	app := nw.App
-	env := &c05Env{snaps: map[int]string{}, flushed: map[int]bool{}}
+	env := &c05Env{snaps: map[int]string{}, flushed: map[int]bool{}, snapAt: map[int]int{}, existedAt: map[int][c05N]bool{}}
+	orig := append(Case{}, c...)
 	denom := nw.GetDenom()
 	pool := testAddr(599)
 	view := func() string {
@@ -363,6 +379,8 @@ func c05Exec(c Case, prop string) (outs []string, fails []Failure, tags []string
 				env.snaps = map[int]string{}
 				env.flushed = map[int]bool{}
 				env.rawBank = false
+				env.snapAt, env.existedAt, env.flushes, env.spans, env.spanFlush = map[int]int{}, map[int][c05N]bool{}, nil, nil, false
+				env.created, env.deleted, env.cleanAfter = [c05N]bool{}, [c05N]bool{}, [c05N]bool{}
 				out = "ok"
 			case "addbal":
 				env.db.AddBalance(ad(1), arg(2))
@@ -446,6 +464,12 @@ func c05Exec(c Case, prop string) (outs []string, fails []Failure, tags []string
 			case "snap":
 				id := env.db.Snapshot()
 				env.snaps[id] = view()
+				env.snapAt[id] = i
+				var ex [c05N]bool
+				for a := 0; a < c05N; a++ {
+					ex[a] = app.AccountKeeper.GetAccount(env.ctx, c05Addr(a).Bytes()) != nil
+				}
+				env.existedAt[id] = ex
 				out = fmt.Sprintf("id=%d", id)
 			case "revert":
 				id := int(arg(1).Int64())
@@ -462,15 +486,44 @@ func c05Exec(c Case, prop string) (outs []string, fails []Failure, tags []string
 					}
 					fails = append(fails, Failure{Signature: sig, What: fmt.Sprintf("after RevertToSnapshot(%d) the EVM-visible state is\n  %s\nat the snapshot it was\n  %s", id, got, want), Case: c[:i+1]})
 				}
+				if at, ok := env.snapAt[id]; ok {
+					env.spans = append(env.spans, [2]int{at, i})
+					for _, fl := range env.flushes {
+						if fl.at > at {
+							env.spanFlush = true
+							for a := 0; a < c05N; a++ {
+								if !env.existedAt[id][a] {
+									env.created[a] = true
+								}
+								if fl.suicided[a] {
+									env.deleted[a] = true
+								}
+							}
+						}
+					}
+					for a := 0; a < c05N; a++ {
+						if env.db.VerifDirtyCount(c05Addr(a)) == 0 {
+							env.cleanAfter[a] = true
+						}
+					}
+				}
 				for k := range env.snaps {
 					if k >= id {
 						delete(env.snaps, k)
 						delete(env.flushed, k)
+						delete(env.snapAt, k)
 					}
 				}
 			case "commit":
 				for id := range env.snaps {
 					env.flushed[id] = true
+				}
+				{
+					fl := c05Flush{at: i}
+					for a := 0; a < c05N; a++ {
+						fl.suicided[a] = env.db.VerifDirtyCount(c05Addr(a)) > 0 && env.db.HasSuicided(c05Addr(a))
+					}
+					env.flushes = append(env.flushes, fl)
 				}
 				if err := env.db.Commit(); err != nil {
 					out = "err:" + strings.ReplaceAll(err.Error(), " ", "_")
@@ -605,6 +658,53 @@ func c05Exec(c Case, prop string) (outs []string, fails []Failure, tags []string
 			}()
 		}
 		outs = append(outs, out)
+	}
+	// ---- store-trace monitor (C05): what the keeper holds at the end of the history must be what it holds after the
+	// same history without the reverted spans ----
+	if prop == "C05" && len(env.spans) > 0 && len(outs) > 0 && strings.Contains(outs[len(outs)-1], "keeper[") {
+		var ref Case
+		for i, line := range orig {
+			drop := false
+			for _, sp := range env.spans {
+				if i >= sp[0] && i <= sp[1] {
+					drop = true
+				}
+			}
+			if !drop {
+				ref = append(ref, line)
+			}
+		}
+		refOuts, _, _ := c05Exec(ref, "C05ref")
+		keeperOf := func(s string) []string {
+			a := strings.Index(s, "keeper[")
+			if a < 0 {
+				return nil
+			}
+			b := strings.Index(s[a:], "]")
+			return strings.Fields(s[a+len("keeper[") : a+b])
+		}
+		if len(refOuts) > 0 {
+			got, want := keeperOf(outs[len(outs)-1]), keeperOf(refOuts[len(refOuts)-1])
+			for a := 0; a < c05N && a < len(got) && a < len(want); a++ {
+				if got[a] == want[a] {
+					continue
+				}
+				class := "dirty-outside-span"
+				switch {
+				case !env.spanFlush:
+					class = "no-commit-in-span"
+				case env.created[a]:
+					class = "created-in-span"
+				case env.deleted[a]:
+					class = "deleted-in-span"
+				case env.cleanAfter[a]:
+					class = "clean-outside-span"
+				}
+				fails = append(fails, Failure{Signature: "C05:reverted-span-leaves-trace-in-store:" + class,
+					What: fmt.Sprintf("after the history the keeper holds %s; after the same history without the reverted spans it holds %s", got[a], want[a]), Case: c})
+				break
+			}
+		}
 	}
 	return
 }
